@@ -196,7 +196,8 @@ def all_cases(tier):
     if not thorough:  # quick: body-validity matrix only for no content-type and charset=utf-8
         out = [c for c in out if c["field"] != "binbody" or c["cls"] in ("ct-none", "ct-plain; chars")]
     for field in FIELDS:
-        for s in seqs(NAMES if thorough or field in ("body", "hvalue", "hname", "path") else REDUCED3, 1):
+        # method: a bare word argument (`-X *`) is where a weaker quoting rule shows (glob, tilde, comment)
+        for s in seqs(NAMES if thorough or field in ("body", "hvalue", "hname", "path", "method") else REDUCED3, 1):
             out.append(field_case(field, s))
     for field in ("body", "hvalue"):
         for s in seqs(NAMES if thorough else (REDUCED3 if field == "body" else REDUCED), 2):
@@ -785,7 +786,7 @@ def run(ctx):
     cases = all_cases(ctx.tier)
     ctx.bounds = {
         "tokens": {n: repr(b) for n, b, _ in TOKENS},
-        "one_field_deviates_one_token": FIELDS if ctx.thorough else "body, hvalue, hname, path over all tokens; query, method, hosthdr over %s" % REDUCED3,
+        "one_field_deviates_one_token": FIELDS if ctx.thorough else "body, hvalue, hname, path, method over all tokens; query, hosthdr over %s" % REDUCED3,
         "two_tokens": {"body": "all tokens" if ctx.thorough else REDUCED3, "hvalue": "all tokens" if ctx.thorough else REDUCED,
                        "path,query,hname": REDUCED3 if ctx.thorough else []},
         "body_three_tokens_over": REDUCED if ctx.thorough else [],
